@@ -2,6 +2,7 @@ import SSVerif.Model.S3file
 import SSVerif.Model.BinMdef
 import SSVerif.Model.Assembly
 import SSVerif.Model.S3fileLedger
+import SSVerif.Model.TmatTopo
 import Driver.Util
 /-! driver sub-command `c17`: runs the byte reader / read plans of `Model/S3file` on byte strings
 (hex or a file with an edit list) — same line protocol as `harness/h_c17.c s3`. -/
@@ -108,7 +109,9 @@ open SSVerif.S3file.Ledger in
 def tmatStage (r : Res TmatOut) : TmatStage :=
   match r with
   | .ok _ => .ok
-  | .reject s => if s = "Failed to read transition matrix" then .row else if isChk s then .chksum else .header
+  | .reject s => if s = "Failed to read transition matrix" then .row else if isChk s then .chksum
+                 else if s = "Tmat not upper triangular" || s = "Topology not Left-to-Right or Bakis" then .topology
+                 else .header
   | _ => .header
 
 open SSVerif.S3file.Ledger in
@@ -252,7 +255,7 @@ def runCase (cache : IO.Ref Cache) (ws : List String) : IO String := do
   | [id, "tmat", src, ed] =>
     match ← loadSrc cache src ed with
     | some s =>
-      let r := tmatPlan s.file
+      let r := tmatPlanTopo s.file
       pure (s!"{id} {showRes r fun o => s!"ok {o.nTmat} {o.nState}"} | site={site r}"
         ++ showLedger (reprStr (tmatStage r)) (Ledger.tmat false (tmatStage r)) Ledger.tmatName)
     | none => pure s!"{id} bad-src"
@@ -269,13 +272,27 @@ def runCase (cache : IO.Ref Cache) (ws : List String) : IO String := do
     | some s, some sl =>
       let r := ldaPlan s.file sl
       pure (s!"{id} {showRes r fun o => s!"ok {o.nLda} {o.rows} {o.cols}"} | site={site r}"
-        ++ showLedger ((reprStr (ldaStage r)).replace " " "_") (Ledger.lda false false (ldaStage r)).1 Ledger.arrName)
+        ++ showLedger ((reprStr (ldaStage r)).replace " " "_") (Ledger.lda false false (ldaStage r)).1 Ledger.ldaName)
     | _, _ => pure s!"{id} bad-src"
+  -- a second `feat_read_lda_s3file` on a front end whose `feat->lda` was set by a first, successful one
+  | [id, "lda2", srcOld, edOld, src, ed, sl] =>
+    match ← loadSrc cache srcOld edOld, ← loadSrc cache src ed, sl.toNat? with
+    | some so, some s, some sl =>
+      match ldaPlan so.file sl with
+      | .ok _ =>
+        let r := ldaPlan s.file sl
+        pure (s!"{id} {showRes r fun o => s!"ok {o.nLda} {o.rows} {o.cols}"} | site={site r}"
+          ++ showLedger ((reprStr (ldaStage r)).replace " " "_") (Ledger.lda false true (ldaStage r)).1 Ledger.ldaName)
+      | _ => pure s!"{id} bad-old"
+    | _, _, _ => pure s!"{id} bad-src"
   | [id, "sd", src, ed, gf, gd, ms] =>
     match ← loadSrc cache src ed, gf.toNat?, gd.toNat?, ms.toNat? with
     | some s, some gf, some gd, some ms =>
       let r := sendumpPlan s.file gf gd ms
-      pure s!"{id} {showRes r fun o => s!"ok {o.clust} {o.dataOff} {o.endPtr}"} | site={site r}"
+      -- last word: Σ (k+1) * offset of row pointer k (k = n * n_density + i), modulo 2^32 — every row pointer is tied
+      let rowSum := fun (o : SdOut) => ((List.range (gf * gd)).foldl
+        (fun acc k => (acc + (k + 1) * o.rowOff (k / gd) (k % gd)) % 4294967296) 0)
+      pure s!"{id} {showRes r fun o => s!"ok {o.clust} {o.dataOff} {o.endPtr} {rowSum o}"} | site={site r}"
     | _, _, _, _ => pure s!"{id} bad-src"
   | [id, "mixw", src, ed, gf, gd] =>
     match ← loadSrc cache src ed, gf.toNat?, gd.toNat? with
